@@ -232,6 +232,17 @@ class ChannelActor:
             return op
         if kind == "delay":
             op = {"op": "delay", "d": G.gen_duration(rng, ch), "ch": self.name}
+            if ch.mod_bandwidth and cs.slots and rng.random() < 0.3:
+                # idle times measured against the channel's rise time: one rise time,
+                # just under two (the longest fall time), and tiny ones, so that
+                # several idle slots pile up inside a pending fall time
+                tr = ch.rise_time
+                dd = G.pick(rng, [tr, tr, 2 * tr - ch.clock_period, ch.min_duration, tr // 2])
+                dd = max(dd, ch.min_duration)
+                if dd % ch.clock_period:
+                    dd += ch.clock_period - dd % ch.clock_period
+                if ch.max_duration is None or dd <= ch.max_duration:
+                    op["d"] = dd
             r = rng.random()
             if r < 0.35:
                 op["at_rest"] = True
